@@ -237,7 +237,7 @@ def domains_model(ctx):
 def run_tag(ctx, kind):
     """prefix tag of the iceoryx2 objects of this run: unique per check process so that concurrent runs (other boxes,
     other seeds) neither see nor clean up each other's shared memory objects"""
-    return f"c{kind}{'q' if ctx.quick else 't'}{ctx.seed % 100}{os.getpid() % 46656:x}"
+    return f"{kind}{'q' if ctx.quick else 't'}{ctx.seed % 100}{os.getpid() % 46656:x}"
 
 
 def shim_so(ctx):
@@ -262,7 +262,10 @@ RES_ACTIONS = ["created", "removed", "port_step", "create_node", "create_service
 def resources_real(ctx):
     """every kind of resource of two real domains under the LD_PRELOAD shim (IOX2_VERIF_ROOT=/ logs every path)"""
     tag = run_tag(ctx, "r")
-    work = ctx.path("res", "x")[:-2]
+    work = ctx.path("rs", "x")[:-2]
+    # <root>/<prefix><listener id: up to 39 digits>.event must fit into sun_path (107 bytes); deepest root: <work>/1/nodes
+    if len(work) + len("/1/nodes") + 1 + len(tag) + 2 + 39 + len(".event") > 107:
+        raise vp.ToolError(f"the work directory {work} is too long for the unix sockets of the resources scenario")
     trace = ctx.path("traces", "resources.ndjson")
     syslog = ctx.path("traces", "resources.syslog")
     if os.path.exists(syslog):
@@ -287,10 +290,16 @@ def resources_real(ctx):
         raise vp.ToolError(f"vacuous resources run: never observed {missing}")
     if s["per_action"].get("victim_failed"):
         raise vp.ToolError("resources run: a helper process could not create its resources")
-    if s["per_action"]["port_step"] < 2 * 14 * s["pairs"]:
-        raise vp.ToolError(f"vacuous resources run: only {s['per_action']['port_step']} port steps")
     recs = vp.read_ndjson(trace)
     runs = vp.split_runs(recs)
+    nres = sum(1 for r in runs if r[0]["pair"].startswith("res-"))
+    ncal = sum(1 for r in runs if r[0]["pair"].startswith("cal-"))
+    want = (4, 2) if ctx.quick else (6, 3)
+    if (nres, ncal) != want:
+        raise vp.ToolError(f"vacuous resources run: {nres} domain pairs and {ncal} cal pairs instead of {want}")
+    if s["per_action"]["port_step"] - s["per_action"].get("cal_create", 0) < 2 * 14 * nres \
+            or s["per_action"].get("cal_create", 0) < 11 * 4 * ncal:
+        raise vp.ToolError(f"vacuous resources run: only {s['per_action']['port_step']} port / concept creation steps")
     ctx.evaluations += s["events"] + s["per_action"]["created_paths"] + s["per_action"]["removed_paths"]
     ctx.distinct += len(runs)
     v = vp.tlc_trace("data", "DomainsTrace", trace, timeout=1200, heap="6g")
